@@ -231,7 +231,7 @@ func runCheck(id, tier string, writeBaseline bool) int {
 		}
 	}
 	genS := time.Since(t0).Seconds() - loadS
-	cfg := SolveCfg{OutDir: filepath.Join(outDir(), "out", id), TimeoutS: 20, Par: 8}
+	cfg := SolveCfg{OutDir: filepath.Join(outDir(), "out", id), TimeoutS: 45, Par: 8} // 45 s: slow obligations still pass on a loaded machine
 	if tier == "thorough" {
 		cfg.TimeoutS = 120
 		cfg.TwoAgree = true
